@@ -32,6 +32,7 @@ import Kanzi.Drv.UTF
 import Kanzi.Drv.BWTS
 import Kanzi.Drv.ImageGen2
 import Kanzi.Drv.EXE
+import Kanzi.Drv.BWT
 
 open Kanzi
 
@@ -213,5 +214,6 @@ def main (args : List String) : IO UInt32 := do
   | ["bwts"] => loop stdin stdout Kanzi.Drv.bwts; return 0
   | ["imagegen2"] => loop stdin stdout Kanzi.Drv.imagegen2; return 0
   | ["exe"] => loop stdin stdout Kanzi.Drv.exe; return 0
+  | ["bwt"] => Kanzi.Drv.bwtLoop stdin stdout; return 0
   | ["image"] => loop stdin stdout Kanzi.Drv.image; return 0
   | _ => IO.eprintln "usage: kmodel <norm>"; return 2
